@@ -19,6 +19,22 @@ fn hexs(bytes: &[u8]) -> String {
   }
 }
 
+/// iterate a table, treating a table that was never created (index flag off) as empty
+macro_rules! each {
+  ($open:expr, |$k:pat_param, $v:pat_param| $body:block) => {
+    match $open {
+      Ok(table) => {
+        for result in table.iter()? {
+          let ($k, $v) = result?;
+          $body
+        }
+      }
+      Err(redb::TableError::TableDoesNotExist(_)) => {}
+      Err(err) => return Err(err.into()),
+    }
+  };
+}
+
 impl Index {
   /// One line per table row, tables in a fixed order, rows in key order (multimap values in
   /// value order). Rows that are timing / commit bookkeeping are prefixed `bookkeeping`.
@@ -26,17 +42,15 @@ impl Index {
     let rtx = self.database.begin_read()?;
     let mut out = Vec::new();
 
-    for result in rtx.open_table(HEIGHT_TO_BLOCK_HEADER)?.iter()? {
-      let (k, v) = result?;
+    each!(rtx.open_table(HEIGHT_TO_BLOCK_HEADER), |k, v| {
       out.push(format!(
         "header {} {}",
         k.value(),
         Header::load(*v.value()).block_hash()
       ));
-    }
+    });
 
-    for result in rtx.open_table(OUTPOINT_TO_UTXO_ENTRY)?.iter()? {
-      let (k, v) = result?;
+    each!(rtx.open_table(OUTPOINT_TO_UTXO_ENTRY), |k, v| {
       let entry = v.value().parse(self);
       let mut line = format!("utxo {} value={}", outpoint_str(k.value()), entry.total_value());
       if self.index_sats {
@@ -62,15 +76,13 @@ impl Index {
         line.push_str(&format!(" ins={}", if ins.is_empty() { "-".into() } else { ins.join(",") }));
       }
       out.push(line);
-    }
+    });
 
-    for result in rtx.open_table(SAT_TO_SATPOINT)?.iter()? {
-      let (k, v) = result?;
+    each!(rtx.open_table(SAT_TO_SATPOINT), |k, v| {
       out.push(format!("sat2satpoint {} {}", k.value(), satpoint_str(v.value())));
-    }
+    });
 
-    for result in rtx.open_table(SEQUENCE_NUMBER_TO_INSCRIPTION_ENTRY)?.iter()? {
-      let (k, v) = result?;
+    each!(rtx.open_table(SEQUENCE_NUMBER_TO_INSCRIPTION_ENTRY), |k, v| {
       let e = InscriptionEntry::load(v.value());
       out.push(format!(
         "entry {} id={} number={} charms={} fee={} height={} hidden={} parents={} sat={} seq={} timestamp={}",
@@ -90,92 +102,73 @@ impl Index {
         e.sequence_number,
         e.timestamp,
       ));
-    }
+    });
 
-    for result in rtx.open_table(INSCRIPTION_ID_TO_SEQUENCE_NUMBER)?.iter()? {
-      let (k, v) = result?;
+    each!(rtx.open_table(INSCRIPTION_ID_TO_SEQUENCE_NUMBER), |k, v| {
       out.push(format!("id2seq {} {}", InscriptionId::load(k.value()), v.value()));
-    }
+    });
 
-    for result in rtx.open_table(INSCRIPTION_NUMBER_TO_SEQUENCE_NUMBER)?.iter()? {
-      let (k, v) = result?;
+    each!(rtx.open_table(INSCRIPTION_NUMBER_TO_SEQUENCE_NUMBER), |k, v| {
       out.push(format!("num2seq {} {}", k.value(), v.value()));
-    }
+    });
 
-    for result in rtx.open_table(SEQUENCE_NUMBER_TO_SATPOINT)?.iter()? {
-      let (k, v) = result?;
+    each!(rtx.open_table(SEQUENCE_NUMBER_TO_SATPOINT), |k, v| {
       out.push(format!("seq2satpoint {} {}", k.value(), satpoint_str(v.value())));
-    }
+    });
 
-    for result in rtx.open_multimap_table(SAT_TO_SEQUENCE_NUMBER)?.iter()? {
-      let (k, vs) = result?;
+    each!(rtx.open_multimap_table(SAT_TO_SEQUENCE_NUMBER), |k, vs| {
       let mut vals = Vec::new();
       for v in vs {
         vals.push(v?.value().to_string());
       }
       out.push(format!("sat2seq {} {}", k.value(), vals.join(",")));
-    }
+    });
 
-    for result in rtx.open_multimap_table(SEQUENCE_NUMBER_TO_CHILDREN)?.iter()? {
-      let (k, vs) = result?;
+    each!(rtx.open_multimap_table(SEQUENCE_NUMBER_TO_CHILDREN), |k, vs| {
       let mut vals = Vec::new();
       for v in vs {
         vals.push(v?.value().to_string());
       }
       out.push(format!("children {} {}", k.value(), vals.join(",")));
-    }
+    });
 
-    for result in rtx
-      .open_table(COLLECTION_SEQUENCE_NUMBER_TO_LATEST_CHILD_SEQUENCE_NUMBER)?
-      .iter()?
-    {
-      let (k, v) = result?;
+    each!(rtx.open_table(COLLECTION_SEQUENCE_NUMBER_TO_LATEST_CHILD_SEQUENCE_NUMBER), |k, v| {
       out.push(format!("collection2latest {} {}", k.value(), v.value()));
-    }
+    });
 
-    for result in rtx
-      .open_multimap_table(LATEST_CHILD_SEQUENCE_NUMBER_TO_COLLECTION_SEQUENCE_NUMBER)?
-      .iter()?
-    {
-      let (k, vs) = result?;
+    each!(rtx.open_multimap_table(LATEST_CHILD_SEQUENCE_NUMBER_TO_COLLECTION_SEQUENCE_NUMBER), |k, vs| {
       let mut vals = Vec::new();
       for v in vs {
         vals.push(v?.value().to_string());
       }
       out.push(format!("latest2collection {} {}", k.value(), vals.join(",")));
-    }
+    });
 
-    for result in rtx.open_table(GALLERY_SEQUENCE_NUMBERS)?.iter()? {
-      let (k, _) = result?;
+    each!(rtx.open_table(GALLERY_SEQUENCE_NUMBERS), |k, _| {
       out.push(format!("gallery {}", k.value()));
-    }
+    });
 
-    for result in rtx.open_table(HOME_INSCRIPTIONS)?.iter()? {
-      let (k, v) = result?;
+    each!(rtx.open_table(HOME_INSCRIPTIONS), |k, v| {
       out.push(format!("home {} {}", k.value(), InscriptionId::load(v.value())));
-    }
+    });
 
-    for result in rtx.open_table(HEIGHT_TO_LAST_SEQUENCE_NUMBER)?.iter()? {
-      let (k, v) = result?;
+    each!(rtx.open_table(HEIGHT_TO_LAST_SEQUENCE_NUMBER), |k, v| {
       out.push(format!("height2lastseq {} {}", k.value(), v.value()));
-    }
+    });
 
-    for result in rtx.open_multimap_table(SCRIPT_PUBKEY_TO_OUTPOINT)?.iter()? {
-      let (k, vs) = result?;
+    each!(rtx.open_multimap_table(SCRIPT_PUBKEY_TO_OUTPOINT), |k, vs| {
       let mut vals = Vec::new();
       for v in vs {
         vals.push(outpoint_str(&v?.value()));
       }
       out.push(format!("script2outpoints {} {}", hexs(k.value()), vals.join(",")));
-    }
+    });
 
-    for result in rtx.open_table(TRANSACTION_ID_TO_TRANSACTION)?.iter()? {
-      let (k, v) = result?;
+    each!(rtx.open_table(TRANSACTION_ID_TO_TRANSACTION), |k, v| {
       out.push(format!("txid2tx {} {}", Txid::load(*k.value()), v.value().len()));
-    }
+    });
 
-    for result in rtx.open_table(RUNE_ID_TO_RUNE_ENTRY)?.iter()? {
-      let (k, v) = result?;
+    each!(rtx.open_table(RUNE_ID_TO_RUNE_ENTRY), |k, v| {
       let e = RuneEntry::load(v.value());
       let terms = match e.terms {
         None => "-".to_string(),
@@ -206,15 +199,13 @@ impl Index {
         e.timestamp,
         e.turbo,
       ));
-    }
+    });
 
-    for result in rtx.open_table(RUNE_TO_RUNE_ID)?.iter()? {
-      let (k, v) = result?;
+    each!(rtx.open_table(RUNE_TO_RUNE_ID), |k, v| {
       out.push(format!("rune2id {} {}", k.value(), RuneId::load(v.value())));
-    }
+    });
 
-    for result in rtx.open_table(OUTPOINT_TO_RUNE_BALANCES)?.iter()? {
-      let (k, v) = result?;
+    each!(rtx.open_table(OUTPOINT_TO_RUNE_BALANCES), |k, v| {
       let buffer = v.value();
       let mut balances = Vec::new();
       let mut i = 0;
@@ -224,20 +215,17 @@ impl Index {
         balances.push(format!("{id}={balance}"));
       }
       out.push(format!("balances {} {}", outpoint_str(k.value()), balances.join(",")));
-    }
+    });
 
-    for result in rtx.open_table(TRANSACTION_ID_TO_RUNE)?.iter()? {
-      let (k, v) = result?;
+    each!(rtx.open_table(TRANSACTION_ID_TO_RUNE), |k, v| {
       out.push(format!("txid2rune {} {}", Txid::load(*k.value()), v.value()));
-    }
+    });
 
-    for result in rtx.open_table(SEQUENCE_NUMBER_TO_RUNE_ID)?.iter()? {
-      let (k, v) = result?;
+    each!(rtx.open_table(SEQUENCE_NUMBER_TO_RUNE_ID), |k, v| {
       out.push(format!("seq2runeid {} {}", k.value(), RuneId::load(v.value())));
-    }
+    });
 
-    for result in rtx.open_table(STATISTIC_TO_COUNT)?.iter()? {
-      let (k, v) = result?;
+    each!(rtx.open_table(STATISTIC_TO_COUNT), |k, v| {
       let key = k.value();
       let name = match key {
         0 => "Schema",
@@ -266,14 +254,16 @@ impl Index {
         name,
         v.value()
       ));
-    }
+    });
 
-    out.push(format!(
-      "bookkeeping write-transactions {}",
-      rtx
-        .open_table(WRITE_TRANSACTION_STARTING_BLOCK_COUNT_TO_TIMESTAMP)?
-        .len()?
-    ));
+    let mut write_transactions = 0u64;
+    each!(
+      rtx.open_table(WRITE_TRANSACTION_STARTING_BLOCK_COUNT_TO_TIMESTAMP),
+      |_k, _v| {
+        write_transactions += 1;
+      }
+    );
+    out.push(format!("bookkeeping write-transactions {write_transactions}"));
 
     out.push(format!(
       "flag unrecoverably_reorged {}",
